@@ -187,6 +187,15 @@ def check_r2(ctx, byname):
         ctx.ob("C02.R2c", "%s:no-old-node-access-after-publish" % m.base, ok,
                "after the release store of next the old node is not dereferenced before _producer is switched to the new node "
                "(the consumer may already have deleted it)", loc=n["loc"], fn=m)
+        # R2h: what was written into the old node is committed before the consumer is shown the next one. Once `next` is visible the
+        # consumer finishes the old node on the strength of its published writer position and frees it; a record that was finished
+        # (finish_write) but not yet committed would be lost with it, and a later commit_write() reaches only the new node
+        commits = [p for c in m.calls(r"BoundedSPSCQueueImpl<.*>::commit_write$")
+                   if any(deref_of_field(x, "_producer") for x in walk(c)) for p in g.positions(c)]
+        ok_h = bool(commits) and all(not g.exists_path([g.entry_node], [s_], avoid_nodes=commits) for s_ in spos)
+        ctx.ob("C02.R2h", "%s:old-node-committed-before-publish" % m.base, ok_h,
+               "every path to the release store of next has committed the writes of the current node (_producer->bounded_queue."
+               "commit_write()): sibling agreement of every function that switches nodes (%d commit site(s))" % len(commits), loc=n["loc"], fn=m)
         ok = bool(apos) and not g.exists_path(spos, [g.exit_node], avoid_nodes=apos)
         ctx.ob("C02.R2d", "%s:producer-switched" % m.base, ok,
                "every path from the publishing store to the exit switches _producer to the published node", loc=n["loc"], fn=m)
